@@ -368,3 +368,53 @@ func (s *Sched) dumpStatus() map[uint64]string {
 	}
 	return out
 }
+
+// quietStatus: wait reasons of goroutines that can only continue when somebody else acts (or never):
+// everything else (running, runnable, syscall, sleep, ...) means the program is still moving by itself.
+var quietStatus = map[string]bool{
+	"select": true, "chan receive": true, "chan send": true,
+	"sync.Mutex.Lock": true, "sync.RWMutex.Lock": true, "sync.RWMutex.RLock": true,
+	"semacquire": true, "sync.Cond.Wait": true, "sync.WaitGroup.Wait": true,
+	"IO wait": true, "select (no cases)": true, "chan receive (nil chan)": true, "chan send (nil chan)": true,
+	"GC worker (idle)": true, "GC sweep wait": true, "GC scavenge wait": true, "force gc (idle)": true,
+	"finalizer wait": true, "debug call": false, "cleanup wait": true, "GC assist wait": false,
+	"timer goroutine (idle)": true, "trace reader (blocked)": true,
+}
+
+// AllQuiet reports whether every goroutine other than the caller is blocked waiting for somebody else
+// (read from the goroutine statuses of a full stack dump). A goroutine that sleeps, runs, is runnable or
+// sits in a system call makes the answer false: it will move on by itself.
+func AllQuiet() bool {
+	s := &Sched{}
+	self := Gid()
+	for id, st := range s.dumpStatus() {
+		if id == self {
+			continue
+		}
+		if !quietStatus[st] {
+			return false
+		}
+	}
+	return true
+}
+
+// WaitQuiet waits until AllQuiet holds on three consecutive looks (or the time-out passes, which is a
+// harness problem, never a verdict) and reports whether it did.
+func WaitQuiet(timeout time.Duration) bool {
+	deadline := time.Now().Add(timeout)
+	streak := 0
+	for time.Now().Before(deadline) {
+		if AllQuiet() {
+			streak++
+			if streak >= 3 {
+				return true
+			}
+			runtime.Gosched()
+			time.Sleep(200 * time.Microsecond)
+			continue
+		}
+		streak = 0
+		time.Sleep(500 * time.Microsecond)
+	}
+	return false
+}
